@@ -175,14 +175,14 @@ def mkDS (name : String) : Option DS :=
 
 /-- Checks every C05-style predicate on an observed record and compares the derived observations
     (encoding, size) with the model's.  Returns the state and the memoised scheme. -/
-def checkRecord (d : DS) (s : St) (o : Obs) (what : String) : St × Scheme :=
+def checkRecord (d : DS) (s : St) (o : Obs) (what : String) : St × Scheme × Option (Bytes × Bool) :=
   let S := d.S
   let r := o.toRec
   let s := s.cmp s!"{what}.enc" (hex r.encode) o.enc
   let s := s.cmp s!"{what}.size" (toString r.size) o.size
   let s := if r.size ≤ 300 then s.chk else s.prop "C09" "size_le_300" s!"size={r.size}"
   match S.enrToPublic r.content with
-  | .error _ => (s.prop "C05" "has_public_key" s!"pairs={showPairs r.content}", S)
+  | .error _ => (s.prop "C05" "has_public_key" s!"pairs={showPairs r.content}", S, none)
   | .ok pk =>
     let v := S.verify pk r.rlpContent r.sig
     let s := { s with nVerify := s.nVerify + 1 }
@@ -196,10 +196,14 @@ def checkRecord (d : DS) (s : St) (o : Obs) (what : String) : St × Scheme :=
       | .ok (r2, rest) =>
         if r2 == r && rest.isEmpty then s.chk else s.prop "C04" "redecode_identical" ""
       | .error e => s.prop "C05" "accepted_again_by_decoder" s!"err={rlpErrStr e}"
-    (s, S')
+    (s, S', some (d.toB pk, v))
+
+/-- memoise one verification for a scheme whose keys are `Bytes` -/
+def memoB (d : DS) (pk msg sig : Bytes) (v : Bool) : Scheme :=
+  @memo d.S d.deq (d.ofB pk) msg sig v
 
 /-- `acc` line: every accessor against the model's accessor on the same record -/
-def checkAcc (d : DS) (s : St) (o : Obs) (t : Toks) : St :=
+def checkAcc (d : DS) (s : St) (o : Obs) (t : Toks) (mi : Option (Bytes × Bool)) : St :=
   let S := d.S
   let r := o.toRec
   let c (s : St) (k model : String) : St :=
@@ -263,6 +267,27 @@ def checkAcc (d : DS) (s : St) (o : Obs) (t : Toks) : St :=
     | "panic" => s.prop "C03" s!"no_panic_{k}" ""
     | v => s.prop "C04" s!"roundtrip_{k}" v
   let s := rt (rt (rt s "rtb") "rtt") "rtj"
+  -- C11: the encoding under every built-in key type
+  let s := if d.name == "toy" || !(thas t "xdec") then s else
+    let enc := r.encode
+    let one (n : String) : String :=
+      match mkDS n with
+      | none => "?"
+      | some d2 =>
+        let S2 := match mi with
+          | some (pk, v) => memoB d2 pk r.rlpContent r.sig v
+          | none => d2.S
+        match decode S2 enc with
+        | .ok (r2, rest) => if r2 == r && rest.isEmpty then "1" else "d"
+        | .error _ => "0"
+    let m := s!"k256:{one "k256"},libsecp:{one "libsecp"},ed:{one "ed"},comb:{one "comb"}"
+    let impl := tget t "xdec"
+    let s := if (impl.splitOn "panic").length > 1 then s.prop "C03" "no_panic_cross_decode" impl else s.cmp "acc.xdec" m impl
+    -- scheme-level expectations, independent of the model
+    let isSecp := tget t "pkkey" == hex kSecp
+    let want := if isSecp then "k256:1,libsecp:1,ed:0,comb:1"
+      else if (Map.lookup r.content kSecp).isNone then "k256:0,libsecp:0,ed:1,comb:1" else impl
+    if impl == want then s.chk else s.prop "C11" "backends_interchangeable_schemes_isolated" s!"xdec={impl} want={want}"
   c s "conv" "1"
 
 /-! ### builder calls / ops -/
@@ -754,11 +779,11 @@ def finishPending (s : St) (recs : List Obs) (acc : Option Toks) : St :=
       | "dec" =>
         let s := handleDec d s t o rec1 false
         let s := handlePrefix s t o rec1
-        let s := match rec1 with
-          | some ob => (checkRecord d s ob "dec").1
-          | none => s
+        let (s, mi) := match rec1 with
+          | some ob => let x := checkRecord d s ob "dec"; (x.1, x.2.2)
+          | none => (s, none)
         let s := match rec1, acc with
-          | some ob, some a => checkAcc d s ob a
+          | some ob, some a => checkAcc d s ob a mi
           | _, _ => s
         -- group by buffer for C11
         let bufh := tget t "buf"
@@ -771,11 +796,11 @@ def finishPending (s : St) (recs : List Obs) (acc : Option Toks) : St :=
       | "declist" => handleMany d s t o recs true
       | "init" =>
         let s := if tget t "kind" == "build" then handleBuild d s t o rec1 else handleDec d s t o rec1 true
-        let s := match rec1 with
-          | some ob => (checkRecord d s ob "init").1
-          | none => s
+        let (s, mi) := match rec1 with
+          | some ob => let x := checkRecord d s ob "init"; (x.1, x.2.2)
+          | none => (s, none)
         let s := match rec1, acc with
-          | some ob, some a => checkAcc d s ob a
+          | some ob, some a => checkAcc d s ob a mi
           | _, _ => s
         { s with cur := rec1 }
       | "step" =>
@@ -802,9 +827,14 @@ def finishPending (s : St) (recs : List Obs) (acc : Option Toks) : St :=
           | some after =>
             let s := { s with before := s.cur }
             let s := handleStep d s t o after
-            let s := if resClass (tget o "res") == "ok" then (checkRecord d s after "step").1 else s
+            let (s, mi) := if resClass (tget o "res") == "ok" then
+                (let x := checkRecord d s after "step"; (x.1, x.2.2)) else (s, none)
+            -- after a failed update the record is the one already examined after the previous step
+            let unchanged := match s.before with
+              | some b => resClass (tget o "res") != "ok" && obsEq b after
+              | none => false
             let s := match acc with
-              | some a => checkAcc d s after a
+              | some a => if unchanged then s else checkAcc d s after a mi
               | none => s
             { s with cur := some after }
           | none => s
